@@ -131,6 +131,25 @@ def handle (j : Json) : Except String Json := do
       let bad := match e with | .deprecationWarning b => jNat (b - 100) | _ => Json.null
       pure (Json.mkObj [("kw", Json.null), ("raised", bad), ("shown", jNats (w.shown.map (· - 100))),
         ("filters_unchanged", jBool (w.filters == fs))])
+  | "accepts" =>
+    -- does the call (npos positional arguments after the receiver, keyword names) go through under the old / new name
+    let H ← (← getArr j "classes").toList.mapM clsOf
+    let c ← getNat j "c"
+    let nm ← getNat j "new"
+    let cap ← getNat j "captured"
+    let sigs ← (← getArr j "sigs").toList.mapM fun e => do
+      let ps ← (← getArr e "params").toList.mapM fun q => do
+        let a ← asArr q
+        match a.toList with
+        | [n, d] => pure ((← asNat n), (← asBool d))
+        | _ => throw "bad-op"
+      pure ((← getNat e "impl"), (⟨ps, (← getBool e "var_pos"), (← getBool e "var_kw")⟩ : Sig))
+    let sigOf : ImplId → Sig := fun i => match sigs.find? (·.1 == i) with
+      | some p => p.2
+      | none => ⟨[], true, true⟩
+    let npos ← getNat j "npos"
+    let kws ← natList (← j.getObjVal? "kws")
+    pure (Json.mkObj [("alias", jBool (aliasAccepts sigOf H c nm cap npos kws)), ("new", jBool (newAccepts sigOf H c nm npos kws))])
   | "slot" =>
     -- the table predicates on a given hierarchy and alias definition
     let H ← (← getArr j "classes").toList.mapM clsOf
